@@ -12,7 +12,8 @@ PROPERTY = "C08"
 RULE = ("tables with forced missing patterns (left only / right only / both / all / one side "
         "entirely) x six joins and five filter_tables (component 'tables') and filter_pair / "
         "filter_candset / apply_matcher (component 'rowwise') x score column x attributes x "
-        "n_jobs; every call is made with allow_missing False and True; non-trivial = at least "
+        "n_jobs; every call is made with allow_missing False and True; 'distributions': every "
+        "subset of missing rows for all nl, nr <= 4 per entry point; non-trivial = at least "
         "one missing and one present value on some side; distinct = case digests")
 ASSUMPTIONS = ["metamorphic on the present part (allow_missing=False run is the reference for "
                "the present rows of the allow_missing=True run), model on the missing part"]
@@ -381,4 +382,113 @@ class LargeMissing(Component):
         ctx.label("large:missing-pairs>=10000", nM >= 10000)
 
 
-COMPONENTS = [Tables(), Rowwise(), LargeMissing()]
+class Distributions(Component):
+    """Every distribution of missing values over small tables: for all row counts nl, nr <= 4
+    and every subset of rows holding a missing value (None or NaN), every join and every
+    filter's filter_tables with allow_missing True and False.  The present values are
+    identical strings, so each present x present pair qualifies: the exact result is known."""
+    name = "distributions"
+    kind = "enum"
+    exhaustive = True
+    rule = "every (entry point, nl, nr) cell runs all 2^nl x 2^nr missing patterns"
+
+    def bounds(self, tier):
+        return {"max_rows": 4 if tier == "quick" else 5, "entries": len(ENTRY_JOINS) +
+                len(ENTRY_FILTERS)}
+
+    def shards(self, tier):
+        return 16
+
+    def budget_s(self, tier):
+        return 200 if tier == "quick" else 1500
+
+    def cases(self, tier):
+        mr = self.bounds(tier)["max_rows"]
+        # entry points innermost: the heavy (nl, nr) cells spread over the shards
+        for nl in range(1, mr + 1):
+            for nr in range(1, mr + 1):
+                for kind, what in [("join", m) for m in ENTRY_JOINS] + \
+                        [("filter", f) for f in ENTRY_FILTERS]:
+                    yield {"kind": kind, "what": what, "nl": nl, "nr": nr}
+
+    def check(self, case, ctx):
+        import pandas as pd
+        from ..env import FILTER_NAMES, JOIN_NAMES
+        nl, nr = case["nl"], case["nr"]
+        what = case["what"]
+        name = ("%s_join" % what.lower()) if case["kind"] == "join" else \
+            "%s.filter_tables" % FILTER_NAMES[what]
+        ed = what == "EDIT_DISTANCE"
+        for lmask in range(2 ** nl):
+            for rmask in range(2 ** nr):
+                lm = [bool(lmask >> i & 1) for i in range(nl)]
+                rm = [bool(rmask >> j & 1) for j in range(nr)]
+                # None and NaN alternate as the missing marker
+                lv = [(None if i % 2 else float("nan")) if lm[i] else "ab cd" for i in range(nl)]
+                rv = [(None if j % 2 == 0 else float("nan")) if rm[j] else "ab cd"
+                      for j in range(nr)]
+                L = pd.DataFrame({"id": list(range(nl)), "v": pd.Series(lv, dtype=object)})
+                R = pd.DataFrame({"id": list(range(100, 100 + nr)),
+                                  "v": pd.Series(rv, dtype=object)})
+                for am in (False, True):
+                    for nj in ((1,) if (lmask + rmask) % 3 else (1, 2)):
+                        if ed:
+                            tok = mk_tok({"kind": "qgram", "q": 2, "padding": True,
+                                          "return_set": False})
+                        else:
+                            tok = mk_tok({"kind": "ws", "return_set": True})
+                        with calls.backend(nj):
+                            if case["kind"] == "join":
+                                fn = getattr(ssj, JOIN_NAMES[what])
+                                if ed:
+                                    df = ctx.lib(fn, L, R, "id", "id", "v", "v", 1, "<=", am,
+                                                 None, None, "l_", "r_", True, nj, False, tok)
+                                elif what == "OVERLAP":
+                                    df = ctx.lib(fn, L, R, "id", "id", "v", "v", tok, 1, ">=", am,
+                                                 None, None, "l_", "r_", True, nj, False)
+                                else:
+                                    df = ctx.lib(fn, L, R, "id", "id", "v", "v", tok, 0.8, ">=",
+                                                 True, am, None, None, "l_", "r_", True, nj,
+                                                 False)
+                            else:
+                                if what == "overlap":
+                                    f = ctx.lib(ssj.OverlapFilter, tok, 1, ">=", am)
+                                else:
+                                    f = ctx.lib(getattr(ssj, FILTER_NAMES[what]), tok, "JACCARD",
+                                                0.8, True, am)
+                                df = None if f is None else ctx.lib(
+                                    f.filter_tables, L, R, "id", "id", "v", "v", n_jobs=nj,
+                                    show_progress=False)
+                        if df is None:
+                            continue
+                        got = collections.Counter(zip(df["l_id"].tolist(), df["r_id"].tolist()))
+                        want = collections.Counter()
+                        for i in range(nl):
+                            for j in range(nr):
+                                if (lm[i] or rm[j]) and not am:
+                                    continue
+                                want[(i, 100 + j)] = 1
+                        if got != want:
+                            ctx.violation(
+                                "entry=%s,kind=missing-distribution" % what,
+                                "%s allow_missing=%r n_jobs=%d, left values missing at rows %r of "
+                                "%d, right at rows %r of %d: pairs only returned %r, only expected "
+                                "%r" % (name, am, nj, [i for i in range(nl) if lm[i]], nl,
+                                        [j for j in range(nr) if rm[j]], nr,
+                                        sorted((got - want).items())[:4],
+                                        sorted((want - got).items())[:4]))
+                        if am and "_sim_score" in df.columns:
+                            for a, b, sc in zip(df["l_id"].tolist(), df["r_id"].tolist(),
+                                                df["_sim_score"].tolist()):
+                                miss = lm[a] or rm[b - 100]
+                                if miss != (sc != sc):
+                                    ctx.violation(
+                                        "entry=%s,kind=missing-pair-score" % what,
+                                        "%s allow_missing=True: pair (%d, %d) (%s) has _sim_score "
+                                        "%r" % (name, a, b, "a side missing" if miss
+                                                else "both present", sc))
+        ctx.nontrivial(True)
+        ctx.label("distributions:" + name)
+
+
+COMPONENTS = [Tables(), Rowwise(), LargeMissing(), Distributions()]
